@@ -160,21 +160,6 @@ void dir_p06(void) {
         k += chunks_of(line + k, stream, sl);
         emit2(line);
     }
-    /* units answering 2^15 / 2^16 items and a few more or less (an item counter of 16 bits): a loop of result calls */
-    { static const long big[] = {32767, 32768, 32769, 40000, 65535, 65536, 65537}; int bi, shape;
-      for (bi = 0; bi < 7; bi++)
-          for (shape = 0; shape < 2; shape++) {
-              ent_t e[3]; int ne = 0; size_t sl, k;
-              if (!h_thorough && ((bi + shape + (int) h_seed) % 2)) continue;      /* half of them per quick run */
-              sprintf(s1, "rN,%ld", big[bi]);
-              e[ne].pattern = "LNG?"; e[ne++].script = s1;
-              e[ne].pattern = "Q1?"; e[ne++].script = "rI,32,1,1,10";
-              table_of(table, e, ne);
-              sl = (size_t) sprintf(stream, shape ? "LNG?;Q1?\nQ1?\n" : "Q1?;LNG?\nQ1?\n");
-              k = (size_t) sprintf(line, "P 256 8 %s", table);
-              k += chunks_of(line + k, stream, sl);
-              emit2(line);
-          } }
 }
 
 
@@ -394,4 +379,24 @@ void dir_p09c(void) {
         k += chunks_of(line + k, b, bl);
         emit2(line);
     }
+}
+
+/* Domain p06big: units answering 2^15 / 2^16 result items and one more or less (an item counter of 16 bits): a loop of result
+ * calls (script op rN).  The model's output is a list that grows by appending, so one such case costs the driver minutes:
+ * the quick tier runs the 2^15 case only. */
+void dir_p06big(void) {
+    static const long big[] = {32768, 32767, 32769, 65535, 65536, 65537}; int bi, shape, nb = h_thorough ? 6 : 1;
+    static char line[4000], table[1000], s1[40], stream[100];
+    for (bi = 0; bi < nb; bi++)
+        for (shape = 0; shape < (h_thorough ? 2 : 1); shape++) {
+            ent_t e[3]; int ne = 0; size_t sl, k;
+            sprintf(s1, "rN,%ld", big[bi]);
+            e[ne].pattern = "LNG?"; e[ne++].script = s1;
+            e[ne].pattern = "Q1?"; e[ne++].script = "rI,32,1,1,10";
+            table_of(table, e, ne);
+            sl = (size_t) sprintf(stream, shape ? "Q1?;LNG?\nQ1?\n" : "LNG?;Q1?\nQ1?\n");
+            k = (size_t) sprintf(line, "P 256 8 %s", table);
+            k += chunks_of(line + k, stream, sl);
+            emit2(line);
+        }
 }
